@@ -68,10 +68,15 @@ func lemma_prefixPreserved(r *Rule, s string) {
 //@   requires spec_wellFormed(r)
 //@   ensures result == r.inflected(s)
 
+// Spec_inflectorOK: every registered rule is initialised (what Register / package initialisation establishes).
+func Spec_inflectorOK(i *Inflector) bool {
+	return i != nil && spec_all(func(t RuleType) bool { return !spec_has(i.rules, t) || (i.rules[t] != nil && spec_wellFormed(i.rules[t])) })
+}
+
 //@ func Inflector.Inflected
 //@   props C20
 //@   pure
-//@   requires i != nil && (forall t RuleType :: has(i.rules, t) ==> i.rules[t] != nil && spec_wellFormed(i.rules[t]))
+//@   requires Spec_inflectorOK(i)
 //@   ensures has(i.rules, tye) ==> result == i.rules[tye].inflected(s)
 //@   ensures !has(i.rules, tye) ==> result == s
 //@   note the dispatcher hands the input to the rule UNCHANGED (no trimming, no case folding): whatever precedes the last word reaches inflected() and is preserved by it (lemma_prefixPreserved)
